@@ -134,7 +134,9 @@ func prepare(state string) *simkube.Store {
 	s.Seed(configMap("cm-chain-0", nil))
 	s.Seed(configMap("cm-chain-2", map[string]string{"set": "chain"}))
 	s.Seed(configMap("cm-flip-1", nil))
-	s.Seed(secret(credSecret, map[string][]byte{"token": []byte("t0ken"), "user": []byte("fn")}))
+	for i := 0; i < 6; i++ {
+		s.Seed(secret(fmt.Sprintf("%s-%d", credSecret, i), map[string][]byte{"token": []byte(fmt.Sprintf("t0ken-%d", i)), "user": []byte("fn")}))
+	}
 
 	xr := xrh.XR("xr1", "comp")
 	var prep []string
